@@ -364,9 +364,12 @@ fn child(args: &[String]) -> ! {
     // ---- release after the timeouts
     let mut released = Value::Null;
     if let Some(ms) = s.timeout_ms {
+        // an application typically calls cleanup() on a timer: once right after the traffic (nothing is due yet) ...
+        let _ = util::guarded(|| rx.cleanup(now));
         std::thread::sleep(Duration::from_millis(ms * 12 + 20));
-        if s.session_alive {
-            // fresh activity on the same session: an unrelated object packet
+        // ... and again after the timeouts. Sessions kept alive: every other scenario sees one unrelated packet
+        // before the second cleanup, the others see no packet at all between the two cleanups
+        if s.session_alive && idx % 2 == 0 {
             let _ = rx.push(&ep, &obj_pkt(1, 77_777, 0, None, 0, 0, 0, &[1, 2, 3], false), now + Duration::from_secs(1));
         }
         let rr = util::guarded(|| rx.cleanup(now + Duration::from_secs(1)));
